@@ -160,6 +160,17 @@ def gen_history(rng, cfg=None):
                 first_edits = first_edits + [{'m': 'flip', 'p': full, 'pos': rng.randrange(0, 30), 'bit': 1},
                                              {'m': 'manifest', 'p': fresh['p'], 'entries': fresh['entries']}]
                 special_hashes = list(ce['hashes'])
+    # a prior Manifest that lists a hidden file (gemato itself never writes such an entry, other tools do); the file
+    # changes before some update
+    hidden_listed = None
+    if prior != 'absent' and manifests and rng.random() < cfg.get('p_hidden_listed', 0.1):
+        m = rng.choice(manifests)
+        md = os.path.dirname(m['p'])
+        hp = (md + '/' if md else '') + rng.choice(['.settings', '.hidden-listed', '.keep'])
+        if not any(t['p'] == hp for t in tree):
+            tree = tree + [{'p': hp, 'k': 'file', 'c': GT.rand_content(rng)}]
+            m['entries'] = m['entries'] + [{'tag': 'DATA', 'path': os.path.basename(hp), 'hashes': rng.choice(HASHSETS)}]
+            hidden_listed = hp
     # targeted prior state: a sub-Manifest refreshed out of band (its parents keep the old MANIFEST entry) and a
     # sub-directory update somewhere else, in a directory whose entries live in one of those parents
     force_path = None
@@ -201,6 +212,9 @@ def gen_history(rng, cfg=None):
                 u['api'] = 'lib'
                 u['reuse'] = True
         rounds.append({'edits': eds, 'update': u})
+    if hidden_listed is not None and rng.random() < 0.8:
+        rnd = rng.choice(rounds)
+        rnd['edits'] = list(rnd['edits']) + [{'m': 'rewrite', 'p': hidden_listed, 'c': GT.rand_content(rng) + ' changed'}]
     # a file that shares its name with a DIST entry of the same Manifest vanishes before some update
     twins = []
     for m in manifests:
